@@ -1,5 +1,6 @@
 import LeaspyVerif.Proto
 import LeaspyVerif.Model.Api
+import LeaspyVerif.Model.Draws
 open LeaspyVerif LeaspyVerif.Proto LeaspyVerif.Api
 
 /-
@@ -10,7 +11,47 @@ request (one line = one whole fit, logging side)
                                                   C(onvergence plot) in execution order, `_` = nothing
       | err:attribute@<k>                         (only with shipped=1: AttributeError at iteration k)
   optional shipped=1 selects the code before repair F6.
+
+request (one line = one recorded seeded run, `harness/draws_c11.py`)
+  draws prog=<event,event,…>
+      events  s<g>.<r|c<value>>.<c>   seeding of generator g with the run's seed (r) / a literal
+              e<g>.<c>                seeding from the clock / the OS
+              d<g>.<kind>.<amount>.<c> a draw
+              g<g>.<slot>.<c>         generator state read into snapshot <slot>
+              p<g>.<slot>.<c>         generator state written from snapshot <slot>
+              u<g>.<c>                the recorder cannot vouch for generator g
+              n<tag>.<c>              marker (a logging action starts)
+              <c> call-site class: a(lgorithm) s(ampler) i(nitialization) l(ogging) o(ther)
+      → seededfirst=<0|1> loggingdraws=<n> firstbad=<none | index:draw:<g> | index:unknown:<g>> gens=<generators drawn from>
+        sig=<digest of the program without its markers> n=<number of events>
 -/
+
+def parseSite (s : String) : Option Draws.Site :=
+  match s with
+  | "a" => some .algorithm | "s" => some .sampler | "i" => some .initialization | "l" => some .logging | "o" => some .other
+  | _ => none
+
+def parseSeedVal (s : String) : Option Draws.SeedVal :=
+  if s == "r" then some .run
+  else if s.startsWith "c" then Draws.SeedVal.const <$> (s.drop 1).toString.toNat? else none
+
+def parseEv (t : String) : Option Draws.Ev :=
+  let body := (t.drop 1).toString
+  match t.take 1 |>.toString, body.splitOn "." with
+  | "s", [g, v, c] => do some ⟨← parseSite c, .seed (← parseNat g) (← parseSeedVal v)⟩
+  | "e", [g, c] => do some ⟨← parseSite c, .entropy (← parseNat g)⟩
+  | "u", [g, c] => do some ⟨← parseSite c, .unknown (← parseNat g)⟩
+  | "d", [g, k, n, c] => do some ⟨← parseSite c, .draw (← parseNat g) (← parseNat k) (← parseNat n)⟩
+  | "g", [g, sl, c] => do some ⟨← parseSite c, .save (← parseNat g) (← parseNat sl)⟩
+  | "p", [g, sl, c] => do some ⟨← parseSite c, .restore (← parseNat g) (← parseNat sl)⟩
+  | "n", [tg, c] => do some ⟨← parseSite c, .note (← parseNat tg)⟩
+  | _, _ => none
+
+def describeBad (p : Draws.Prog) (i : Nat) : String :=
+  match p[i]? with
+  | some ⟨_, .draw g _ _⟩ => s!"{i}:draw:{g}"
+  | some ⟨_, .unknown g⟩ => s!"{i}:unknown:{g}"
+  | _ => s!"{i}:?"
 
 def parseOptInt (s : String) : Option (Option Int) :=
   if s == "none" then some none else some <$> parseInt s
@@ -48,6 +89,12 @@ def handle (line : String) : String :=
             | .err _ => s!"err:attribute@{k}"
             | .ok as => go (k + 1) fuel ((if as.isEmpty then "_" else String.join (as.map letter)) :: acc)
         some (go 1 n [])
+      ).getD "bad-request"
+  | "draws" :: args =>
+    (do
+      let p ← (kv args "prog") >>= parseList parseEv
+      let fb := Draws.firstBad p
+      some s!"seededfirst={fmtBool (Draws.seededFirst p)} loggingdraws={Draws.loggingDraws p} firstbad={match fb with | none => "none" | some i => describeBad p i} gens={fmtList toString (Draws.gensUsed p)} sig={Draws.sig p} n={p.length}"
       ).getD "bad-request"
   | _ => "bad-request"
 
